@@ -279,7 +279,8 @@ SHAPES = [(), (1,), (2,), (3,), (4,), (0,), (2, 3), (3, 2), (1, 3), (4, 1),
 SHAPE_W = [2, 1, 3, 6, 3, 1, 4, 3, 1, 1, 2, 1, 1, 1]
 
 TEMPLATES = ("none", "none", "none", "ring", "star", "chain", "pingpong",
-             "fanout", "multi", "forward", "crossing", "crossing")
+             "fanout", "multi", "forward", "crossing", "crossing",
+             "gathersum", "gathersum", "holdercross")
 
 
 def _leaf_data(rng, shape, dtype):
@@ -303,6 +304,7 @@ class _Gen:
         self.leaf_store_prob = rng.choice([0.0, 0.0, 0.3])
         self.ninputs = [0] * nranks
         self.nvals = nvals
+        self.forced_outs: list = []
 
     def add_val(self, v, npval):
         self.vals.append(v)
@@ -511,6 +513,60 @@ class _Gen:
                     acc = nxt if nxt is not None else acc
                 if rng.random() < 0.5:
                     self.vals[acc]["stored"] = True
+        elif name == "gathersum":
+            # reduction / relay towards a root: one send whose payload combines
+            # two or more receives with different communication ids
+            root = rng.choice([0, 0, rng.randrange(n)])
+            mids = [r for r in range(n) if r != root]
+            m = rng.choice(mids)
+            srcs = [r for r in range(n) if r != m]
+            got = []
+            for _ in range(rng.randint(2, 3)):
+                if self.budget <= 1:
+                    break
+                sr = rng.choice(srcs)
+                sv = heads[sr] if rng.random() < 0.6 else \
+                    (self.add_op(sr, "addc", [heads[sr]]) or heads[sr])
+                got.append(self.add_comm(sv, m))
+            acc = None
+            for g in got:
+                red = self.add_op(m, "sum", [g]) if rng.random() < 0.7 else g
+                red = red if red is not None else g
+                if acc is None:
+                    acc = red
+                else:
+                    nxt = self.add_op(m, rng.choice(["add", "mul"]), [acc, red])
+                    acc = nxt if nxt is not None else acc
+            if acc is not None and self.budget > 0:
+                rv = self.add_comm(acc, root)
+                self.add_op(root, "addc", [rv])
+        elif name == "holdercross":
+            # a send S (payload depends on a receive R) stapled onto a value x
+            # that is part of the payload of an EARLIER send S2 to the rank
+            # that computes R from S2: true order S2, R, S
+            a, b = rng.sample(range(n), 2)
+            x = heads[a]
+            x2 = self.add_op(a, rng.choice(["addc", "mulc", "neg"]), [x])
+            x2 = x2 if x2 is not None else x
+            if self.budget >= 3:
+                pay2 = self.add_op(a, rng.choice(["addc", "sumb", "neg"]), [x2])
+                pay2 = pay2 if pay2 is not None else x2
+                r_b = self.add_comm(pay2, b)                      # S2: a -> b
+                back = self.add_op(b, rng.choice(["addc", "neg"]), [r_b])
+                back = back if back is not None else r_b
+                r_a = self.add_comm(back, a)                      # R: b -> a
+                pay = self.add_op(a, rng.choice(["addc", "mulc"]), [r_a])
+                pay = pay if pay is not None else r_a
+                dst = rng.choice([q for q in range(n) if q != a])
+                self.add_comm(pay, dst)                           # S: a -> dst
+                self.comms[-1]["staple_hint"] = ["val", x2]
+                use = self.add_op(a, "add", [pay2, r_a])
+                if use is not None:
+                    if rng.random() < 0.5:
+                        self.vals[use]["stored"] = True
+                    self.forced_outs.append(use)
+                else:
+                    self.forced_outs.append(pay2)
         elif name == "forward":
             order = list(range(n))
             rng.shuffle(order)
@@ -557,6 +613,7 @@ def gen_recipe(rng: random.Random, *, max_ranks=4, max_comm=6) -> dict:
                                             len(mine) - 1)])
             else:
                 picks.append(rng.choice(mine))
+        picks += [v for v in g.forced_outs if g.vals[v]["rank"] == r]
         for j, vi in enumerate(picks):
             outs.append({"rank": r, "name": f"out{j}", "val": vi})
     recipe = {"nranks": nranks, "vals": g.vals, "comms": g.comms, "outs": outs,
@@ -596,16 +653,39 @@ def live_sets(recipe):
     return live, livec
 
 
+def _arg_reachable(recipe, rank):
+    """values of *rank* reachable from its outputs through arguments only (a
+    holder stapled onto one of them is certainly part of the rank's graph)"""
+    seen = set()
+    work = [o["val"] for o in recipe["outs"] if o["rank"] == rank]
+    while work:
+        i = work.pop()
+        if i in seen:
+            continue
+        seen.add(i)
+        work.extend(recipe["vals"][i]["args"])
+    return seen
+
+
 def assign_staples(recipe, rng):
     """every live send must be reachable from its rank's outputs: staple it to
     an output or to a later live intermediate value of the sending rank"""
     live, livec = live_sets(recipe)
+    # a hinted staple may sit BELOW its payload; combined with free staples on
+    # intermediates this could ask for a graph that contains itself, so the
+    # other sends of such a recipe go onto outputs
+    hinted = any("staple_hint" in c for c in recipe["comms"])
     for ci in livec:
         c = recipe["comms"][ci]
         outs = [oi for oi, o in enumerate(recipe["outs"]) if o["rank"] == c["src"]]
         inter = [i for i in sorted(live)
                  if recipe["vals"][i]["rank"] == c["src"] and i > c["src_val"]]
-        if inter and rng.random() < 0.4:
+        hint = c.pop("staple_hint", None)
+        if hint is not None and hint[1] in _arg_reachable(recipe, c["src"]):
+            # (a hint may name a value BEFORE src_val: the holder then sits
+            # inside the payload of an earlier send; legal, see build_rank)
+            c["staple"] = list(hint)
+        elif inter and not hinted and rng.random() < 0.4:
             c["staple"] = ["val", rng.choice(inter)]
         else:
             c["staple"] = ["out", rng.choice(outs)]
@@ -791,10 +871,20 @@ def build_rank(recipe, r, npvals=None, faults=(), localise=False):
                                                       data.dtype))
         return expr
 
+    building: set = set()
+    raws: dict = {}
+
     def get(i):
         if i in built:
             return built[i]
-        res = staple_all("val", i, raw(i))
+        if i in building:
+            # the payload of a send stapled onto value i uses value i itself:
+            # it sees the plain value (a holder cannot contain itself)
+            return raws[i]
+        building.add(i)
+        raws[i] = raw(i)
+        res = staple_all("val", i, raws[i])
+        building.discard(i)
         built[i] = res
         return res
 
